@@ -431,8 +431,8 @@ class Hist:
                               f"{fn} raised ({exc}) but {d} changed")
                 if kind in ("clone", "dict", "reset"):
                     self.fail(f"C12/{fn}/raises", replay, f"{fn}() raised on a valid vector: {exc}")
-                elif code == 2:
-                    self.fail(f"C12/{fn}/unexpected-exception", replay, f"{fn} raised {exc}")
+                # (the class of the exception of a failing assignment is not the property's business:
+                #  it is compared by the correspondence only)
             elif kind in ("attr", "key") and op[1] in before["names"]:
                 i = before["names"].index(op[1])
                 want, clipped = expected_store(op[2], before["mins"][i], before["maxs"][i])
